@@ -21,33 +21,33 @@ CHECKS = {
  "C04": dict(level="exploration", ref="DESIGN.md §5 C04", technique=SEQ_TECH,
    text="Histories that exhaust both rate limiters right before every kind of finishing (explicit calls, with_finish+drop, finish_using_style, iterator exhaustion); the forced final frame must reach the terminal and show the final state; visibly finished dropped bars must stay until println/clear/suspend/remove. Sampling; exact replay."),
  "C19": dict(level="exploration", ref="DESIGN.md §5 C19", technique=SEQ_TECH + " with terminal sizes swept from 1x1",
-   text="Small-terminal sweeps (W,H in 1..8 and a few larger) with histories that grow and shrink the set of bars past the terminal height; the scrollback-aware transcript must show the leading lines/bars that fit and nothing of an earlier frame. Sampling; exact replay."),
+   text="Small-terminal sweeps (W,H in 1..8 and a few larger) with histories that grow and shrink the set of bars past the terminal height, in one history in three on a window whose height changes between calls (the library is not told; a fault of the environment); the scrollback-aware transcript must show the leading lines/bars that fit and nothing of an earlier frame. Sampling; exact replay."),
  "C07": dict(level="exploration", ref="DESIGN.md §5 C07",
    technique="deterministic simulation: seeded histories vs wrapping/saturating reference model; seeded thread schedules with atomics as scheduling points",
    text="Seeded search: boundary-valued operation histories against an executable reference model (sequential), and 2-8 simulated threads incrementing clones under a seeded scheduler that interleaves at every atomic operation (lost-update oracle). Sampling over histories and schedules; exact replay from a seed/schedule file."),
  "C05": dict(level="exploration", ref="DESIGN.md §5 C05",
    technique="deterministic simulation: virtual clock with seeded arrival-gap generator clustered around the refresh interval; window/staleness laws checked on recorded paint timestamps",
-   text="One run covers up to days of simulated time: 50-400 redraw requests with gaps at exactly the interval +- 1 ns / 1 us, bursts, seconds, hours, for every refresh rate 1..=255 and unlimited targets, standalone and through a MultiProgress; the statement's laws (window bound 20+R*T+1, no starvation after one interval, position staleness <= interval + 1 ms, position bucket burst 10 / 1 ms, nothing lost) are evaluated on the timestamps of the frames that reached the simulated terminal. Sampling of arrival patterns; exact replay."),
+   text="One run covers up to days of simulated time: 50-400 redraw requests with gaps at exactly the interval +- 1 ns / 1 us, bursts, seconds, hours, for every refresh rate 1..=255 and unlimited targets, standalone and through a MultiProgress, from every setter that issues a request and - in a mode of its own - from a steady ticker thread while the user thread sleeps, holds the bar inside suspend() or the terminal is slow; the statement's laws (window bound 20+R*T+1, no starvation after one interval, position staleness <= interval + 1 ms, position bucket burst 10 / 1 ms, nothing lost) are evaluated on the timestamps of the frames that reached the simulated terminal. Sampling of arrival patterns; exact replay."),
  "C06": dict(level="exploration", ref="DESIGN.md §5 C06",
    technique="deterministic simulation: hidden bar and visible twin driven in lock-step on one virtual clock; spy terminal attributes every terminal call to the API call in progress; real console::Term over a non-tty file",
-   text="Seeded histories applied to a hidden bar (seven ways of being hidden, including a real non-tty console::Term and removal from a visible MultiProgress) and to a visible twin; getters must agree after every call and the hidden bar must make no terminal call or query, also while a steady ticker runs on simulated threads. Sampling; exact replay."),
+   text="Seeded histories (every public call on a handle, builders, clones and weak handles, the iterator and io adaptors, calls on the hidden MultiProgress itself) applied to a hidden bar (twelve ways of being hidden, including a real non-tty console::Term and removal from a visible MultiProgress) and to a visible twin; getters must agree after every call and the hidden bar must make no terminal call or query, also while a steady ticker runs on simulated threads. Sampling; exact replay."),
  "C08": dict(level="exploration", ref="DESIGN.md §5 C08",
    technique="deterministic simulation: seeded random/sticky/PCT thread schedules at lock/condvar/spawn/join/atomic granularity with virtual timers, spurious wake-ups and clock jitter; deadlock (wait-for graph), no-time-scope and thread-lifecycle oracles",
-   text="2-3 simulated user threads plus the library's ticker threads run short programs of public calls on shared handles; the scheduler owns every lock, condvar, spawn and join decision and the clock, so the three-party update()/ticker-slot/join interleaving is produced on demand and replayed exactly; stop calls must return without the virtual clock moving for intervals from 1 ms to 10 h; a second mode checks that the ticker ticks, that manual ticks do not advance the spinner and that it stops on finish/disable/replace/drop. Sampling of schedules; exact replay from seed or schedule file."),
+   text="2-3 simulated user threads plus the library's ticker threads run short programs of public calls on shared handles; the scheduler owns every lock, condvar, spawn and join decision and the clock, so the three-party update()/ticker-slot/join interleaving is produced on demand and replayed exactly; stop calls must return without the virtual clock moving for intervals from 1 ms to 10 h; a second mode checks that the ticker ticks (also after the bar left its MultiProgress and joined again, and across calls that do not concern it), that manual ticks do not advance the spinner and that it stops on finish/disable/replace/drop. Sampling of schedules; exact replay from seed or schedule file."),
  "C18": dict(level="fault_enumeration", ref="DESIGN.md §5 C18",
-   technique="deterministic simulation with fault injection: for every sampled history every terminal-call index k fails (once / from then on) with rotating io::ErrorKind; differential against the fault-free run",
-   text="Histories are sampled from the seed; for each history the fault index dimension is enumerated completely: every one of the N terminal calls of the fault-free run is failed, in two modes. No call may panic on any simulated thread, getters must equal the fault-free run after every call, io::Result-returning calls must report the error, and everything is exercised and dropped afterwards (poisoned locks show there)."),
+   technique="deterministic simulation with fault injection: for every sampled history every terminal-call index k fails (once / from then on / flaky from then on) with rotating io::ErrorKind and raw OS codes; differential against the fault-free run; a share of the histories runs in a child process whose real standard error fails every write (EPIPE)",
+   text="Histories are sampled from the seed; for each history the fault index dimension is enumerated completely: every one of the N terminal calls of the fault-free run is failed, in three modes (beyond the first 250 calls every 41st index and every flush). One history in forty runs with its whole enumeration in a process whose real standard error cannot be written. No call may panic on any simulated thread, getters must equal the fault-free run after every call, io::Result-returning calls must report the error, and everything is exercised and dropped afterwards (poisoned locks show there)."),
  "C09": dict(level="exploration", ref="DESIGN.md §5 C09",
    technique="deterministic simulation: virtual clock, seeded (gap, position) history generator from 1 ms to days, algebraic-law oracles and metamorphic twin bars; f64 reference estimator only to classify the known finding",
-   text="Laws of the statement (finite/non-negative, exact for steady progress at any cadence, bounded by the largest sample rate, monotone decay while stalled, forgetfulness after reset/rewind, eta/duration relations) are checked on the real estimator driven through the public API with the clock behind a seam, so days of simulated time cost microseconds and getters are compared at one frozen instant. Sampling; exact replay."),
+   text="Laws of the statement (finite/non-negative, exact for steady progress at any cadence, bounded by the largest sample rate, monotone decay while stalled, forgetfulness after reset/rewind, eta/duration relations) are checked on the real estimator driven through the public API with the clock behind a seam, so days of simulated time cost microseconds and getters are compared at one frozen instant; positions reach the bar by set_position, update, inc and seeks of the io adaptor, and gaps also pass inside the closure of suspend(). Sampling; exact replay."),
  "C11": dict(level="exploration", ref="DESIGN.md §5 C11",
    technique="deterministic simulation: random history then a frozen virtual instant; rendered key captured from the simulated terminal vs getter through the public formatter",
-   text="For 25 documented keys the text painted on the simulated terminal at a frozen instant must equal the getter value at that same instant pushed through the documented public formatter; custom keys must see the current state and be ticked/reset with the bar. Sampling over histories; exact replay."),
+   text="For 25 documented keys the text painted on the simulated terminal at a frozen instant must equal the getter value at that same instant pushed through the documented public formatter; templates with several keys at once must show each value in its place; tick strings are checked against the list the style was built with; custom keys must see the current state, be ticked/reset with the bar and survive style()/template()/set_style round trips untouched. Sampling over histories; exact replay."),
  "C16": dict(level="exploration", ref="DESIGN.md §5 C16", technique=SEQ_TECH + "; byte-level inspection of every string reaching the terminal seam",
    text="Seeded call orders of tab-width, style, message and prefix setters (builder calls in all 24 orders) with tabs in texts, template literals and custom-key output; no TAB may reach the terminal, the transcript must equal the model rendering with the current tab width, message()/prefix() must return the expanded text. Sampling; exact replay."),
  "C17": dict(level="exploration", ref="DESIGN.md §5 C17",
    technique="deterministic simulation with fault injection: simulated reader/writer/stream with seeded short/EINTR/EAGAIN/EIO/Pending/EOF plan, call-by-call differential against an unwrapped twin + position model; seeded rayon split driver with leaves on simulated threads",
-   text="Seeded search over call sequences and fault plans on simulated I/O objects behind the adaptors' existing Read/BufRead/Write/Seek/tokio Async*/Stream/Iterator/rayon plumbing seams. Every call is compared with an unwrapped twin that follows the same seeded behaviour plan and position() with an exact transfer count. Sampling; exact replay from the scenario file."),
+   text="Seeded search over call sequences and fault plans on simulated I/O objects behind the adaptors' existing Read/BufRead/Write/Seek/tokio Async*/Stream/Iterator/rayon plumbing seams. Sinks with and without vectored support, empty leading slices, declared lengths that are wrong. Every call is compared with an unwrapped twin that follows the same seeded behaviour plan and position() with an exact transfer count. Sampling; exact replay from the scenario file."),
 }
 
 NOT_APPLICABLE = {
